@@ -19,6 +19,7 @@ def parseMC : Sx → Option MaskClass
   | .atom "none" => some .none_
   | .atom "all" => some .all_
   | .atom "mixed" => some .mixed
+  | .atom "mixedlossy" => some .mixedLossy
   | _ => none
 
 def parsePairs (x : Sx) : Option (List (Nat × Nat)) := do
@@ -39,11 +40,15 @@ def parseOp (vars : List Nat) (x : Sx) : Option Op :=
       | _ => none
     some (.mk (← n.toNat?) (← mn.toNat?) mask (← u.toBool?) (← d.toBool?))
   | .list [.atom "mks", m, u, d] => do some (.mks (← m.toBool?) (← u.toBool?) (← d.toBool?))
-  | .list [.atom "derive", v, m, vi, mi, msc, r] => do
-    let msc : Option Bool ← match msc with
+  | .list [.atom "derive", v, m, vi, mi, msc, r, ds] => do
+    let pmsc (x : Sx) : Option (Option Bool) := match x with
       | .atom "A" => some none
       | x => (x.toBool?).map some
-    some (.derive (← var v) (← parseMode m) ⟨← vi.nats?, ← mi.nats?, msc⟩ (← r.toBool?))
+    let vidx ← vi.nats?
+    let dsel ← (← ds.toList?).mapM fun p => match p with
+      | .list [k, dmi, dmsc] => do some ((← k.toNat?), (⟨vidx, ← dmi.nats?, ← pmsc dmsc⟩ : Sel))
+      | _ => none
+    some (.derive (← var v) (← parseMode m) ⟨vidx, ← mi.nats?, ← pmsc msc⟩ (← r.toBool?) dsel)
   | .list [.atom "wod", v] => do some (.wod (← var v))
   | .list [.atom "clone", v, r] => do some (.clone (← var v) (← r.toBool?))
   | .list [.atom "copy", v, r, ro] => do some (.copy (← var v) (← r.toBool?) (← ro.toBool?))
@@ -56,8 +61,10 @@ def parseOp (vars : List Nat) (x : Sx) : Option Op :=
   | .list [.atom "getderiv", v, k] => do some (.getDeriv (← var v) (← k.toNat?))
   | .list [.atom "rawref", v, m] => do some (.rawRef (← var v) (← m.toBool?))
   | .list [.atom "rawview", v, m, idx] => do some (.rawView (← var v) (← m.toBool?) (← idx.nats?))
-  | .list [.atom "setitem", v, pos, mpos] => do some (.setItem (← var v) (← pos.nats?) (← mpos.nats?))
-  | .list [.atom "iop", v, f] => do some (.iop (← var v) (← f.toBool?))
+  | .list [.atom "setitem", v, pos, mpos, mn] => do
+    some (.setItem (← var v) (← pos.nats?) (← mpos.nats?) (← mn.toNat?))
+  | .list [.atom "setall", v] => do some (.setAll (← var v))
+  | .list [.atom "iop", v, f, u] => do some (.iop (← var v) (← f.toBool?) (← u.toBool?))
   | .list [.atom "setunits", v, u, ov] => do some (.setUnits (← var v) (← u.toNat?) (← ov.toBool?))
   | .list [.atom "deld", v, k, ov] => do some (.deleteDeriv (← var v) (← k.toNat?) (← ov.toBool?))
   | .list [.atom "delds", v, ov] => do some (.deleteDerivs (← var v) (← ov.toBool?))
